@@ -155,6 +155,7 @@ class Run:
                 "known_findings_reported": [o["key"] for o, _ in known_hits],
                 "exceptions_applied": [{"key": o["key"], "rule": o["rule"], "reason": e["reason"]} for o, e in excepted],
                 "notes": self.notes[:60],
+                "normalisation": _inline_report(),
                 "exhaustive": True,
             },
             "assumptions": self.assumptions + [
@@ -167,6 +168,17 @@ class Run:
         ev["coverage"].update(self.extra)
         with open(os.path.join(EVIDENCE_DIR, f"{self.prop}.json"), "w") as fh:
             json.dump(ev, fh, indent=1, default=str)
+
+
+def _inline_report():
+    """What the inlining pre-pass (sa/inline.py) did to the tree under analysis."""
+    try:
+        from .model import program
+        rep = list(getattr(program(), "inline_report", []))
+    except Exception:       # pragma: no cover
+        rep = ["unavailable"]
+    return {"rule": "functions that are not in sa/inventory.json are inlined back into their callers before the rules run",
+            "actions": rep or ["none: every function of the tree is in the inventory"]}
 
 
 def load_known() -> Dict[str, Any]:
